@@ -88,7 +88,7 @@ def consumer_scenario(kind, n, start2_at, deviations, enq_late):
     return res
 
 
-def worker_scenario(kind, n, dur, start2_at, stop1_at, deviations):
+def worker_scenario(kind, n, dur, start2_at, stop1_at, deviations, tl=1000):
     x = Exec(kind, deviations=deviations, clients=2)
     w = x.world
     loop = x.loop
@@ -98,7 +98,7 @@ def worker_scenario(kind, n, dur, start2_at, stop1_at, deviations):
             w.server.reorder = True
 
         def make(ci):
-            worker = Worker(_connection=w.conns[ci], graceful_shutdown_time=0.0, handle_signals=[])
+            worker = Worker(_connection=w.conns[ci], graceful_shutdown_time=0.0, handle_signals=[], tasks_limit=tl)
 
             async def job(m: MessageDependency):
                 rec = [ci, "start", loop._ns, None]
@@ -168,6 +168,167 @@ def worker_scenario(kind, n, dur, start2_at, stop1_at, deviations):
     finally:
         x.close()
     return res
+
+
+# --------------------------------------------------------------------------------------
+# words over the consumer API as the runner uses it: consume / pause / unpause / finish on a
+# consumer with a one-message window (A) next to an unlimited one (B), and the application's
+# reject / ack of what it holds
+# --------------------------------------------------------------------------------------
+PW_LETTERS = ["cA", "cB", "pA", "uA", "rj", "ak", "fA"]
+PW_BUDGET = {"mem": 0.25, "redis": 0.5, "amqp": 0.35}
+
+
+def pause_words(maxlen):
+    out = []
+
+    def rec(word, alive, paused, held):
+        if word:
+            out.append(list(word))
+        if len(word) == maxlen:
+            return
+        for l in PW_LETTERS:
+            if l in ("cA", "pA", "uA", "fA") and not alive:
+                continue
+            if l == "pA" and paused or l == "uA" and not paused:
+                continue
+            if l in ("rj", "ak") and held == 0:
+                continue
+            rec(word + [l], alive and l != "fA", (paused or l == "pA") and l != "uA",
+                held + (1 if l in ("cA", "cB") else 0) - (1 if l in ("rj", "ak") else 0))
+
+    rec([], True, False, 0)
+    return out
+
+
+def pause_word_scenario(kind, word):
+    x = Exec(kind)
+    w = x.world
+    loop = x.loop
+    viol = []
+    trace = []
+    try:
+        cons = {}
+
+        async def setup():
+            await w.connect()
+            await w.broker.queue_declare("q")
+            for i in range(2):
+                await w.broker.enqueue(w.key(f"m{i}", "job", "q", 5), "", w.params(timeout=500.0))
+            cons["A"] = w.broker.get_consumer("q", None, 1, MessageCategory.NORMAL)
+            cons["B"] = w.broker.get_consumer("q", None, None, MessageCategory.NORMAL)
+            await cons["A"].start()
+            await asyncio.sleep(0.6)  # A's window and hand fill up first (Redis polls one priority per 100 ms)
+            await cons["B"].start()
+
+        x.run(setup())
+        loop.run_for(0.3)
+        held = {}      # id -> (consumer, key): consumed by the application, not settled yet
+        order = []     # ids in the order they were consumed
+        last = {"A": None, "B": None}
+        acked = set()
+        loose = set()  # delivered through A, unsettled when A finished: held or waiting, either is fine
+
+        def run_op(coro, budget):
+            fut = asyncio.ensure_future(coro, loop=loop)
+            limit = loop._ns + round(budget * NS)
+            while not fut.done():
+                nt = loop.next_timer_ns()
+                if not loop._ready and not loop._io and not (w.server is not None and w.server.busy()) \
+                        and (nt is None or nt > limit):
+                    break
+                loop.step()
+            if not fut.done():
+                fut.cancel()
+                for _ in range(300):
+                    if fut.done():
+                        break
+                    loop.step()
+                return "timeout", None
+            if fut.cancelled():
+                return "cancelled", None
+            if fut.exception() is not None:
+                return "exc", fut.exception()
+            return "ok", fut.result()
+
+        # every word ends with a probe: whatever can still be delivered to B must not be something the
+        # application holds
+        for letter in list(word) + ["cB"]:
+            if letter in ("cA", "cB"):
+                c = letter[1]
+                st, res = run_op(cons[c].consume(), PW_BUDGET[kind])
+                if st == "exc":
+                    viol.append(("consume-failed", f"{letter} raised {res!r} (trace {trace})"))
+                    break
+                if st != "ok":
+                    trace.append(f"{letter}:-")
+                    continue
+                key = res[0]
+                trace.append(f"{letter}:{key.id_}")
+                if key.id_ in held:
+                    viol.append(("held-by-two", f"{letter} returned {key.id_}, which consumer {held[key.id_][0]} had delivered "
+                                                f"and the application still holds (trace {trace})"))
+                    break
+                if key.id_ in acked:
+                    viol.append(("delivered-after-ack", f"{letter} returned {key.id_} after it had been acknowledged (trace {trace})"))
+                    break
+                held[key.id_] = (c, key)
+                loose.discard(key.id_)
+                order.append(key.id_)
+                last[c] = key.id_
+            elif letter in ("pA", "uA"):
+                st, res = run_op(cons["A"].pause() if letter == "pA" else cons["A"].unpause(), 1.0)
+                trace.append(f"{letter}:{st}")
+                if st != "ok":
+                    viol.append(("pause-failed", f"{letter} ended with {st} {res!r}"))
+                    break
+            elif letter in ("rj", "ak"):
+                ids = [i for i in order if i in held]
+                if not ids:
+                    trace.append(f"{letter}:nothing-held")
+                    continue
+                mid = ids[-1] if letter == "rj" else ids[0]
+                c, key = held.pop(mid)
+                st, res = run_op(w.broker.reject(key) if letter == "rj" else w.broker.ack(key), 1.0)
+                trace.append(f"{letter}:{mid}:{st}")
+                if letter == "ak":
+                    acked.add(mid)
+                if st != "ok":
+                    viol.append(("settle-failed", f"{letter} of {mid} ended with {st} {res!r}"))
+                    break
+            elif letter == "fA":
+                st, res = run_op(cons["A"].finish(), 2.0)
+                trace.append(f"fA:{st}")
+                if st != "ok":
+                    viol.append(("finish-failed", f"finish ended with {st} {res!r}"))
+                    break
+                # "returned by its holder's shutdown": what was delivered through A and not settled yet may
+                # be given back (the in-memory broker returns all of it, Redis / RabbitMQ the latest one);
+                # the application forgets those handles
+                for mid in [i for i, (c_, _) in held.items() if c_ == "A"]:
+                    held.pop(mid)
+                    loose.add(mid)
+        loop.run_for(0.3)
+        if not viol:
+            obs = w.observe()
+            for i in range(2):
+                mid = f"m{i}"
+                places = sorted(e["place"] for e in obs.get(mid, []))
+                if mid in acked:
+                    if places:
+                        viol.append(("acked-still-present", f"{mid} was acknowledged but is in {places} (trace {trace})"))
+                elif len(places) != 1:
+                    viol.append(("duplicated" if places else "lost", f"{mid} is in {places} (application holds {sorted(held)}; trace {trace})"))
+                elif mid in loose and places[0] not in ("held", "waiting"):
+                    viol.append(("wrong-place", f"{mid} (unsettled when its consumer finished) is in {places} (trace {trace})"))
+                elif mid in held and places != ["held"]:
+                    viol.append(("held-and-available", f"the application holds {mid} (delivered by {held[mid][0]}) but it is in {places} (trace {trace})"))
+            if obs.get("__orphans__"):
+                viol.append(("ghost", f"{obs['__orphans__']} (trace {trace})"))
+        handles = loop.handles
+    finally:
+        x.close()
+    return dict(handles=handles, points=[], trace=trace), viol
 
 
 OVERLAP_A = ["ack", "nack", "reject", "requeue"]
@@ -392,13 +553,17 @@ def run_one(scn, deviations):
     if scn["level"] == "maintenance":
         r = maintenance_scenario(scn["timeout"], scn["held_for"])
         return r, judge_maintenance(scn, r), dict(got=r["got"], places=r["places"])
+    if scn["level"] == "pause-word":
+        r, viol = pause_word_scenario(scn["kind"], scn["word"])
+        return r, viol, dict(trace=r["trace"])
     if scn["level"] == "overlap":
         r = overlap_scenario(scn["kind"], scn["op_a"], scn["op_b"], scn["d"], deviations)
         return r, judge_overlap(scn, r), dict(entries=r["entries"], got1=r["got1"], local1=r["local1"])
     if scn["level"] == "consumer":
         r = consumer_scenario(scn["kind"], scn["n"], scn.get("start2_at"), deviations, scn.get("enq_late", False))
         return r, judge_consumers(scn, r), dict(got=r["got"], places=r["places"])
-    r = worker_scenario(scn["kind"], scn["n"], scn["dur"], scn.get("start2_at"), scn.get("stop1_at"), deviations)
+    r = worker_scenario(scn["kind"], scn["n"], scn["dur"], scn.get("start2_at"), scn.get("stop1_at"), deviations,
+                        scn.get("tl", 1000))
     return r, judge_workers(scn, r), dict(runs={k: [x[:2] for x in v] for k, v in r["runs"].items()}, places=r["places"])
 
 
@@ -411,6 +576,11 @@ def base_scenarios(tier):
         for n in (1, 2):
             for dur in (0.0, 0.005):
                 out.append(dict(level="worker", kind=kind, n=n, dur=dur))
+        # one slot per worker: a message waits inside the worker (consumer paused) while another one runs
+        for n in (2, 3):
+            out.append(dict(level="worker", kind=kind, n=n, dur=0.005, tl=1))
+        # ... and long enough for the polling instants of the two workers to coincide while it waits
+        out.append(dict(level="worker", kind=kind, n=2, dur=0.25, tl=1))
     return out
 
 
@@ -429,6 +599,10 @@ def jobs(tier):
             for b in OVERLAP_B:
                 out.append(dict(overlap=[dict(level="overlap", kind=kind, n=1, op_a=a, op_b=b, d=d)
                                          for d in range(-span, span + 1)]))
+    pw = pause_words(6 if tier == "quick" else 7)
+    for kind in ("mem", "redis", "amqp"):
+        for lo in range(0, len(pw), 150):
+            out.append(dict(overlap=[dict(level="pause-word", kind=kind, n=2, word=wd) for wd in pw[lo:lo + 150]]))
     for scn in base_scenarios(tier):
         base, _, _ = run_one(scn, None)
         n_it = base["iters"]
